@@ -14,7 +14,23 @@ use crate::env::Tier;
 
 pub fn dispatch(id: &str, tier: Tier, seed: u64, replay: Option<&str>) -> i32 {
     match id {
-        "C01" | "C10" | "C12" => seqprops::run(id, tier, seed, replay),
+        "C01" | "C10" => seqprops::run(id, tier, seed, replay),
+        "C12" => {
+            if let Some(path) = replay {
+                let text = std::fs::read_to_string(path).unwrap_or_default();
+                if text.contains("\"crash_accounting\"") {
+                    return crashprops::replay_accounting(path);
+                }
+                if text.contains("\"synth_clock\"") {
+                    return crashprops::replay_synth_clock(path);
+                }
+                return seqprops::run(id, tier, seed, replay);
+            }
+            let code = seqprops::run(id, tier, seed, None);
+            let (ucode, summary) = crashprops::clock_campaign(tier, seed);
+            fold_into_evidence("C12", "automatic_writes_after_recovery", summary, "images", ucode);
+            code.max(ucode)
+        }
         "C05" => {
             if let Some(path) = replay {
                 let text = std::fs::read_to_string(path).unwrap_or_default();
@@ -65,6 +81,9 @@ pub fn dispatch(id: &str, tier: Tier, seed: u64, replay: Option<&str>) -> i32 {
                 if text.contains("\"synth_recovery\"") {
                     return synthrec::replay(path);
                 }
+                if text.contains("\"mass_retirement\"") {
+                    return synthrec::replay_mass(path);
+                }
                 if text.contains("conc:C11D") {
                     return concprops::replay_sub("C11D", path);
                 }
@@ -73,6 +92,9 @@ pub fn dispatch(id: &str, tier: Tier, seed: u64, replay: Option<&str>) -> i32 {
             let code = seqprops::run(id, tier, seed, None);
             let (ucode, summary) = synthrec::campaign("C11", tier, seed);
             fold_into_evidence("C11", "recovery_of_synthesised_images", summary, "images", ucode);
+            let (mcode, msummary) = synthrec::mass_campaign("C11", tier, seed ^ 0x11);
+            fold_into_evidence("C11", "mass_retirement", msummary, "images", mcode);
+            let ucode = ucode.max(mcode);
             let (dcode, dev) = concprops::run_campaign("C11D", "C11", tier, seed);
             fold_into_evidence("C11", "sweeper_racing_writers", concprops::sub_summary(&dev), "executions", dcode);
             code.max(ucode).max(dcode)
@@ -123,10 +145,28 @@ pub fn dispatch(id: &str, tier: Tier, seed: u64, replay: Option<&str>) -> i32 {
         "C08" => concprops::run("C08", tier, seed, replay),
         "C18" => concprops::run("C18", tier, seed, replay),
         "C20" => c20::run(tier, seed, replay),
+        "C04-MASS" => {
+            // development entry: the mass-retirement stage of C04 alone (writes no evidence)
+            let (code, summary) = synthrec::mass_campaign("C04", tier, seed);
+            println!("{}", serde_json::to_string_pretty(&summary).unwrap_or_default());
+            code
+        }
         "C15" => c15::run(tier, seed, replay),
         "C02" => crashprops::run("C02", tier, seed, replay),
         "C03" => crashprops::run("C03", tier, seed, replay),
-        "C04" => crashprops::run("C04", tier, seed, replay),
+        "C04" => {
+            if let Some(path) = replay {
+                let text = std::fs::read_to_string(path).unwrap_or_default();
+                if text.contains("\"mass_retirement\"") {
+                    return synthrec::replay_mass(path);
+                }
+                return crashprops::run("C04", tier, seed, replay);
+            }
+            let code = crashprops::run("C04", tier, seed, None);
+            let (mcode, summary) = synthrec::mass_campaign("C04", tier, seed);
+            fold_into_evidence("C04", "mass_retirement", summary, "images", mcode);
+            code.max(mcode)
+        }
         _ => {
             eprintln!("fxv: no check registered for {id}");
             64
